@@ -10,12 +10,13 @@ use super::*;
 use crate::gtargets::*;
 use crate::props::c03::parse_transitions;
 use crate::zoo::BF64;
-use mini_mcmc::core::MarkovChain;
+use burn::tensor::{Tensor, TensorData};
+use mini_mcmc::core::{ChainRunner, MarkovChain};
 use mini_mcmc::distributions::{Conditional, Gaussian2D, IsotropicGaussian, Proposal, Target};
 use mini_mcmc::gibbs::GibbsMarkovChain;
 use mini_mcmc::hmc::HMC;
 use mini_mcmc::metropolis_hastings::MetropolisHastings;
-use mini_mcmc::nuts::NUTS;
+use mini_mcmc::nuts::{NUTSChain, NUTS};
 use ndarray::{arr1, arr2};
 use rand::rngs::SmallRng;
 use rand::{Rng, SeedableRng};
@@ -25,7 +26,7 @@ pub fn def() -> PropertyDef {
     PropertyDef {
         id: "C06",
         level: "exploration",
-        scenarios: vec![Box::new(EndToEnd)],
+        scenarios: vec![Box::new(EndToEnd), Box::new(ApiHistories)],
         assumptions: vec![
             "statistical oracle: alarm only at |z| > 7 (t with K-1 >= 47 degrees of freedom) and Kolmogorov-Smirnov distances beyond the 1e-10 critical value; at most a few hundred statistics per run, so a fresh seed alarms with probability < 1e-7 on a correct tree; with the default seed the verdict is a constant",
             "chains start from exact draws of the target (Cholesky / inverse CDF in the harness), so no burn-in bias enters the estimates; NUTS estimates use draws at least 30 transitions after the freeze",
@@ -609,5 +610,294 @@ impl Scenario for EndToEnd {
     }
     fn components(&self) -> Value {
         json!({"real": ["all four samplers", "IsotropicGaussian", "burn autodiff", "NUTSChain::run per chain"], "stub": ["targets with closed-form moments", "exact starting draws", "statistics"]})
+    }
+}
+
+// ---- the same expectations along API histories: restarts from caller-assigned states, batched runs ----
+struct ApiHistories;
+
+const HISTORIES: &[&str] = &["nuts_restart", "hmc_restart", "mh_restart", "gibbs_restart", "hmc_batched", "nuts_batched", "mh_batched"];
+
+/// z-tests of first and second moments of iid replicates (rows of `x`, d columns) against a Gaussian target
+fn moment_tests(st: &mut Stats, x: &[Vec<f64>], mu: &[f64], cov: &[Vec<f64>]) {
+    let d = mu.len();
+    for i in 0..d {
+        st.z(&format!("x{i}"), &x.iter().map(|r| r[i]).collect::<Vec<_>>(), mu[i]);
+        for j in i..d {
+            st.z(&format!("(x{i}-mu)(x{j}-mu)"), &x.iter().map(|r| (r[i] - mu[i]) * (r[j] - mu[j])).collect::<Vec<_>>(), cov[i][j]);
+        }
+        // a tail probability: P(x_i > mu_i + 1.5 sd_i)
+        let cut = mu[i] + 1.5 * cov[i][i].sqrt();
+        st.z(&format!("1[x{i} > mu + 1.5 sd]"), &x.iter().map(|r| (r[i] > cut) as u8 as f64).collect::<Vec<_>>(), 1.0 - phi(1.5));
+    }
+}
+
+impl Scenario for ApiHistories {
+    fn name(&self) -> &'static str {
+        "api_histories"
+    }
+    fn runs(&self, tier: Tier) -> u64 {
+        tier.pick(14, 280)
+    }
+    fn generate(&self, g: &mut Gen, tier: Tier, idx: u64) -> Value {
+        json!({"config": HISTORIES[(idx % HISTORIES.len() as u64) as usize], "gseed": g.u64(), "seed": crate::props::c07::special_seed(g, 4).to_string(), "reps": tier.pick(12_000, 24_000), "steps": g.usize(1, 2)})
+    }
+    fn execute(&self, p: &Value, ws: bool) -> Outcome {
+        let mut o = Outcome::default();
+        let cfg = ps(p, "config").to_string();
+        let mut g = Gen::new(pu(p, "gseed"));
+        let reps = pus(p, "reps");
+        let steps = pus(p, "steps");
+        let seed = pu(p, "seed");
+        o.hash = str_hash(&p.to_string());
+        o.nontrivial = true;
+        let mut info = json!({});
+        let _ = mcmc_sim::sim::take_last_panic();
+        let r = std::panic::catch_unwind(std::panic::AssertUnwindSafe(|| {
+            let mut st = Stats { o: &mut o, site: format!("C06[{cfg}]"), n_stats: 0, worst: 0.0 };
+            let dev = <BF64 as burn::tensor::backend::Backend>::Device::default();
+            match cfg.as_str() {
+                // One adapted chain; again and again the caller assigns an exact draw of the target to the
+                // public `position` field and takes `steps` transitions: the result is an exact draw again.
+                "nuts_restart" => {
+                    let d = g.usize(2, 3);
+                    let target = GTarget::gauss(&mut g, d, 6.0);
+                    let cov = gauss_cov(&target);
+                    let mut chain = NUTSChain::<f64, BF64, GTarget>::new(target.clone(), exact_gauss_draw(&mut g, &target), 0.8).set_seed(seed);
+                    let _ = chain.run(1, 150);
+                    let n = reps;
+                    let mut xs = Vec::with_capacity(n);
+                    for _ in 0..n {
+                        let x0 = exact_gauss_draw(&mut g, &target);
+                        chain.position = Tensor::<BF64, 1>::from_data(TensorData::new(x0, [d]), &dev);
+                        for _ in 0..steps {
+                            chain.step();
+                        }
+                        xs.push(chain.position.to_data().convert::<f64>().to_vec::<f64>().unwrap());
+                    }
+                    st.o.work = (n * steps) as u64;
+                    moment_tests(&mut st, &xs, &target.mu, &cov);
+                    info = json!({"d": d, "replicates": n, "steps_per_replicate": steps});
+                }
+                // The whole batch of positions is re-assigned with exact draws, then `steps` HMC steps follow.
+                "hmc_restart" => {
+                    let d = g.usize(2, 4);
+                    let target = GTarget::gauss(&mut g, d, 9.0);
+                    let cov = gauss_cov(&target);
+                    let smin = (0..d).map(|i| cov[i][i].sqrt()).fold(f64::MAX, f64::min);
+                    let (eps, l) = (g.f64_in(0.9, 1.4) * smin, g.usize(2, 5));
+                    let rows = 500usize;
+                    let starts: Vec<Vec<f64>> = (0..rows).map(|_| exact_gauss_draw(&mut g, &target)).collect();
+                    let mut h = HMC::<f64, BF64, GTarget>::new(target.clone(), starts, eps, l).set_seed(seed);
+                    let _ = h.run(2, 1);
+                    let rounds = reps / rows;
+                    let mut xs = Vec::with_capacity(rounds * rows);
+                    for _ in 0..rounds {
+                        let flat: Vec<f64> = (0..rows).flat_map(|_| exact_gauss_draw(&mut g, &target)).collect();
+                        h.positions = Tensor::<BF64, 2>::from_data(TensorData::new(flat, [rows, d]), &dev);
+                        for _ in 0..steps {
+                            h.step();
+                        }
+                        let x = h.positions.to_data().convert::<f64>().to_vec::<f64>().unwrap();
+                        xs.extend(x.chunks(d).map(|r| r.to_vec()));
+                    }
+                    st.o.work = (rounds * rows * steps) as u64;
+                    moment_tests(&mut st, &xs, &target.mu, &cov);
+                    info = json!({"d": d, "eps": eps, "L": l, "replicates": xs.len(), "steps_per_replicate": steps});
+                }
+                "mh_restart" => {
+                    let target = GTarget::gauss(&mut g, 2, 9.0);
+                    let covv = gauss_cov(&target);
+                    let lib_t = Gaussian2D { mean: arr1(&[target.mu[0], target.mu[1]]), cov: arr2(&[[covv[0][0], covv[0][1]], [covv[1][0], covv[1][1]]]) };
+                    let std = g.f64_in(0.6, 1.6);
+                    let mut s = MetropolisHastings::new(lib_t, IsotropicGaussian::<f64>::new(std), vec![exact_gauss_draw(&mut g, &target); 2]).seed(seed);
+                    let _ = s.run(3, 2);
+                    let n = reps * 4;
+                    let mut xs = Vec::with_capacity(n);
+                    for k in 0..n {
+                        let c = &mut s.chains[k % 2];
+                        c.current_state = exact_gauss_draw(&mut g, &target);
+                        for _ in 0..steps {
+                            c.step();
+                        }
+                        xs.push(c.current_state.clone());
+                    }
+                    st.o.work = (n * steps) as u64;
+                    moment_tests(&mut st, &xs, &target.mu, &covv);
+                    info = json!({"proposal_std": std, "replicates": n, "steps_per_replicate": steps});
+                }
+                "gibbs_restart" => {
+                    let rho = g.f64_in(-0.9, 0.9);
+                    let mut ch = GibbsMarkovChain::new(BiGauss { rho, rng: SmallRng::seed_from_u64(seed) }, &[0.0, 0.0]);
+                    let n = reps * 4;
+                    let mut xs = Vec::with_capacity(n);
+                    for _ in 0..n {
+                        let (z0, z1) = (g.normal(), g.normal());
+                        ch.current_state = vec![z0, rho * z0 + (1.0 - rho * rho).sqrt() * z1];
+                        for _ in 0..steps {
+                            ch.step();
+                        }
+                        xs.push(ch.current_state.clone());
+                    }
+                    st.o.work = (n * steps) as u64;
+                    moment_tests(&mut st, &xs, &[0.0, 0.0], &[vec![1.0, rho], vec![rho, 1.0]]);
+                    info = json!({"rho": rho, "replicates": n, "steps_per_replicate": steps});
+                }
+                // A seeded sampler used in many short `run` calls (sampling in batches after a separate
+                // warm-up call): the pooled per-chain averages are those of one long stationary run.
+                "hmc_batched" | "nuts_batched" | "mh_batched" => {
+                    let d = if cfg == "mh_batched" { 2 } else { g.usize(2, 3) };
+                    let target = GTarget::gauss(&mut g, d, 6.0);
+                    let cov = gauss_cov(&target);
+                    // many rows: a stream that restarts with every call leaves each row on its own short cycle, which
+                    // shows in the spread of second moments across rows, not in any single row
+                    let kk = match cfg.as_str() {
+                        "nuts_batched" => 160,
+                        "hmc_batched" => 2048,
+                        _ => 512,
+                    };
+                    let starts: Vec<Vec<f64>> = (0..kk).map(|_| exact_gauss_draw(&mut g, &target)).collect();
+                    let (batches, per) = (g.usize(40, 80), g.usize(2, 12));
+                    let mut acc1 = vec![vec![0.0; d]; kk];
+                    let mut acc2 = vec![vec![0.0; d * d]; kk];
+                    let mut count = 0usize;
+                    let add = |c: usize, row: &[f64], acc1: &mut Vec<Vec<f64>>, acc2: &mut Vec<Vec<f64>>| {
+                        for i in 0..d {
+                            acc1[c][i] += row[i];
+                            for j in 0..d {
+                                acc2[c][i * d + j] += (row[i] - target.mu[i]) * (row[j] - target.mu[j]);
+                            }
+                        }
+                    };
+                    match cfg.as_str() {
+                        "hmc_batched" => {
+                            let smin = (0..d).map(|i| cov[i][i].sqrt()).fold(f64::MAX, f64::min);
+                            // half of the runs mix weakly within one call (short trajectories, few steps per call):
+                            // whatever one call inherits from the previous one then dominates the pooled moments
+                            let weak = g.bool(1, 2);
+                            let (eps, l) = if weak { (g.f64_in(0.15, 0.5) * smin, g.usize(1, 3)) } else { (g.f64_in(0.7, 1.2) * smin, g.usize(2, 6)) };
+                            let per = if weak { g.usize(1, 4) } else { per };
+                            let mut h = HMC::<f64, BF64, GTarget>::new(target.clone(), starts, eps, l).set_seed(seed);
+                            let _ = h.run(1, 20);
+                            let mut first_moms: Vec<Vec<f64>> = vec![];
+                            for _ in 0..batches {
+                                mcmc_sim::trace::start();
+                                let t = h.run(per, 0);
+                                let ev = mcmc_sim::trace::stop();
+                                if let Some(m) = ev.iter().find(|e| e.role == "hmc_momentum") {
+                                    first_moms.push(m.vals.iter().take(256 * d).cloned().collect());
+                                }
+                                let dims = t.dims();
+                                let v = t.to_data().convert::<f64>().to_vec::<f64>().unwrap();
+                                // [n_collect, n_chains, d] or [n_chains, n_collect, d]: pooled per chain either way
+                                let chains_first = dims[0] == kk && dims[1] == per;
+                                for a in 0..dims[0] {
+                                    for b in 0..dims[1] {
+                                        let c = if chains_first { a } else { b };
+                                        add(c, &v[(a * dims[1] + b) * d..(a * dims[1] + b + 1) * d], &mut acc1, &mut acc2);
+                                    }
+                                }
+                                count += per;
+                            }
+                            // the momenta one call starts with are independent of those the previous call started with
+                            let a: Vec<f64> = first_moms[..first_moms.len() - 1].iter().flatten().cloned().collect();
+                            let b: Vec<f64> = first_moms[1..].iter().flatten().cloned().collect();
+                            st.indep("first momenta of consecutive run calls", &a, &b);
+                            info = json!({"d": d, "eps": eps, "L": l, "rows": kk, "batches": batches, "per_batch": per, "weak_mixing_per_call": weak});
+                        }
+                        "nuts_batched" => {
+                            let mut s = NUTS::<f64, BF64, GTarget>::new(target.clone(), starts, 0.8).set_seed(seed);
+                            let mut nuts_first: Vec<(usize, Vec<f64>)> = vec![];
+                            for (c, ch) in s.verif_chains_mut().iter_mut().enumerate() {
+                                let _ = ch.run(1, 120);
+                                for _ in 0..batches / 2 {
+                                    mcmc_sim::trace::start();
+                                    let out = ch.run(per, 0);
+                                    let ev = mcmc_sim::trace::stop();
+                                    if let Some(m) = ev.iter().find(|e| e.role == "nuts_init_mom").or_else(|| ev.iter().find(|e| e.role == "nuts_mom")) {
+                                        nuts_first.push((c, m.vals.clone()));
+                                    }
+                                    let v = out.to_data().convert::<f64>().to_vec::<f64>().unwrap();
+                                    for row in v.chunks(d) {
+                                        add(c, row, &mut acc1, &mut acc2);
+                                    }
+                                }
+                            }
+                            count = (batches / 2) * per;
+                            let (mut a, mut b) = (vec![], vec![]);
+                            for w in nuts_first.windows(2) {
+                                if w[0].0 == w[1].0 && w[0].1.len() == w[1].1.len() {
+                                    a.extend(w[0].1.iter().cloned());
+                                    b.extend(w[1].1.iter().cloned());
+                                }
+                            }
+                            st.indep("first momenta of consecutive run calls", &a, &b);
+                            info = json!({"d": d, "chains": kk, "batches": batches / 2, "per_batch": per, "momentum_pairs": a.len()});
+                        }
+                        _ => {
+                            let lib_t = Gaussian2D { mean: arr1(&[target.mu[0], target.mu[1]]), cov: arr2(&[[cov[0][0], cov[0][1]], [cov[1][0], cov[1][1]]]) };
+                            let std = g.f64_in(0.6, 1.6);
+                            let mut s = MetropolisHastings::new(lib_t, IsotropicGaussian::<f64>::new(std), starts).seed(seed);
+                            let _ = s.run(1, 5);
+                            let mut peeks: Vec<Vec<f64>> = vec![];
+                            for _ in 0..batches {
+                                peeks.push(s.chains.iter().map(|c| c.rng.clone().random::<f64>()).collect());
+                                let a = s.run(per * 4, 0).expect("run");
+                                for c in 0..kk {
+                                    for t in 0..per * 4 {
+                                        add(c, &[a[[c, t, 0]], a[[c, t, 1]]], &mut acc1, &mut acc2);
+                                    }
+                                }
+                                count += per * 4;
+                            }
+                            let a: Vec<f64> = peeks[..peeks.len() - 1].iter().flatten().cloned().collect();
+                            let b: Vec<f64> = peeks[1..].iter().flatten().cloned().collect();
+                            st.indep("first acceptance uniforms of consecutive run calls", &a, &b);
+                            info = json!({"proposal_std": std, "chains": kk, "batches": batches, "per_batch": per * 4});
+                        }
+                    }
+                    st.o.work = (kk * count) as u64;
+                    let n = count as f64;
+                    for i in 0..d {
+                        st.z(&format!("x{i}"), &acc1.iter().map(|a| a[i] / n).collect::<Vec<_>>(), target.mu[i]);
+                        for j in i..d {
+                            st.z(&format!("(x{i}-mu)(x{j}-mu)"), &acc2.iter().map(|a| a[i * d + j] / n).collect::<Vec<_>>(), cov[i][j]);
+                        }
+                    }
+                }
+                other => panic!("HARNESS-ERROR: unknown history {other}"),
+            }
+            (st.n_stats, st.worst)
+        }));
+        match r {
+            Err(_) => {
+                let m = mcmc_sim::sim::take_last_panic().unwrap_or_default();
+                if m.contains("HARNESS-ERROR") {
+                    o.harness_error = Some(m);
+                } else {
+                    o.violate("panic", &format!("C06[{cfg}]:panic"), m);
+                }
+            }
+            Ok((n_stats, worst)) => {
+                o.count("statistics_evaluated", n_stats);
+                o.count(&format!("probe_history_{cfg}"), 1);
+                if let Ok(f) = std::env::var("VERIF_DEBUG_Z") {
+                    use std::io::Write;
+                    if let Ok(mut fh) = std::fs::OpenOptions::new().create(true).append(true).open(f) {
+                        let _ = writeln!(fh, "{cfg} worst |z| = {worst:.2} info = {info}");
+                    }
+                }
+                if ws {
+                    o.sample = Some(json!({"config": cfg, "setup": info, "statistics": n_stats, "largest_abs_z": worst}));
+                }
+            }
+        }
+        o
+    }
+    fn rule(&self) -> &'static str {
+        "one run = one API history (7 kinds visited in turn): restarts — the caller assigns an exact draw of the target to the public state (NUTSChain::position, HMC::positions, MHMarkovChain::current_state, GibbsMarkovChain::current_state) of a sampler that has already run, takes 1..2 steps, and the result must again be distributed as the target (>= 12000 iid replicates, z-tests of means, second moments, tail probabilities); batched runs — a seeded sampler (special seeds too) is used in 40..80 short run(n, 0) calls after a separate warm-up call, pooled per-chain averages z-tested; distinct = parameter hash"
+    }
+    fn components(&self) -> Value {
+        json!({"real": ["NUTSChain::run/step", "HMC::run/step", "MetropolisHastings::run, MHMarkovChain::step", "GibbsMarkovChain::step", "burn autodiff"], "stub": ["Gaussian targets with closed-form moments", "exact draws", "statistics"]})
     }
 }
